@@ -252,7 +252,8 @@ def measure_mpr(rid, A, B, lift, clsA, clsB):
         e, _ = extent_min(A, B, sh)
         # e > 0 is only an upper bound of the residual overlap: a certain violation needs a lower bound, which the
         # sampled directions cannot give for round shapes -> judged only through the witness depth below
-        w = NW.deep_overlap(A, NW.Body(B.spec, B.M, B.t + sh, B.margin), None, 2e-3 * L / s * 1.25)
+        w = NW.deep_overlap(A, NW.Body(B.spec, B.M, B.t + sh, B.margin, B.cls, R=(B.R if getattr(B, "general", False) else None)), None,
+                            2e-3 * L / s * 1.25)
         rec["judged"] = True
         rec["residual"] = 1000 if w else 0            # a point 2.5e-3*L inside both after the translation: certain residual overlap
     return rec
@@ -301,6 +302,26 @@ def gen(tier, seed, algo):
             recs.append(rec)
             meta[rid] = {"algo": algo, "A": X.describe(), "B": Y.describe(), "clsA": X.classes()[0], "clsB": Y.classes()[0],
                          "lift": [lift[0], lift[1].tolist(), lift[2].tolist()], "family": "tiny-inflated"}
+    # skinny and flat polytopes in general relative orientation, overlapping: the portal discovery of MPR takes its rarely used
+    # replacement branches there (a rod through a plate, two rods, a triangle / segment hull through a box)
+    skinny = [{"kind": "box", "a": 16, "b": 2, "c": 2}, {"kind": "box", "a": 12, "b": 12, "c": 2}, {"kind": "box", "a": 2, "b": 2, "c": 20},
+              {"kind": "hull", "V": [[0, 0, 0], [8, 0, 0], [0, 6, 0]]}, {"kind": "hull", "V": [[0, 0, 0], [10, 0, 0]]},
+              {"kind": "hull", "V": [[0, 0, 0], [12, 0, 0], [0, 2, 0], [0, 0, 2]]}, {"kind": "box", "a": 4, "b": 4, "c": 4}]
+    for i in range(220 if tier == "quick" else 5000):
+        A = NW.Body(rng.choice(skinny), np.eye(3, dtype=int), [rng.uniform(-2, 2) for _ in range(3)], 0, None, R=S.random_rotation(rng))
+        B0 = NW.Body(rng.choice(skinny), np.eye(3, dtype=int), [rng.uniform(-2, 2) for _ in range(3)], 0, None, R=S.random_rotation(rng))
+        B, _ = NW.graze(A, B0, rng, 0.25, ks=(-1, -2, -4))
+        for X, Y in ((A, B), (B, A)):
+            n += 1
+            rid = f"e{n}"
+            clsX = "ConvexHullVertices" if X.spec["kind"] == "hull" else None
+            clsY = "ConvexHullVertices" if Y.spec["kind"] == "hull" else None
+            rec = measure_epa(rid, X, Y, NW.IDENT, clsX, clsY) if algo == "epa" else measure_mpr(rid, X, Y, NW.IDENT, clsX, clsY)
+            if rec is None:
+                continue
+            recs.append(rec)
+            meta[rid] = {"algo": algo, "A": X.describe(), "B": Y.describe(), "clsA": clsX or X.classes()[0], "clsB": clsY or Y.classes()[0],
+                         "lift": [1.0, np.eye(3).tolist(), [0, 0, 0]], "family": "skinny"}
     # pinned scenes of the known findings (deterministic)
     OCT = {"kind": "hull", "V": S.HULLS["octa"]}
     if algo == "epa":
